@@ -220,6 +220,9 @@ Value& MemberCONCATExpression::value(Context& ctx) const
     switch (a0.type().major())
     {
     case Type::LITERAL:
+      /* the constant null must not be overwritten */
+      if (_exp->isConst())
+        return ctx.allocate(std::move(Value(new Literal(*a0.literal()))));
       if (a0.lvalue())
         val.swap(a0.clone().to_lvalue(val.lvalue()));
       else
@@ -233,6 +236,13 @@ Value& MemberCONCATExpression::value(Context& ctx) const
       Integer c = *a0.integer();
       if (c < 0 || c > 255)
         break;
+      /* the constant null must not be overwritten */
+      if (_exp->isConst())
+      {
+        if (c == 0)
+          return ctx.allocate(Value(new TabChar(1, (char)c)));
+        return ctx.allocate(Value(new Literal(1, (char)c)));
+      }
       if (c == 0)
       {
         val.swap(Value(new TabChar(1, (char)c)).to_lvalue(val.lvalue()));
